@@ -9,6 +9,17 @@
 #include <openssl/rsa.h>
 #include "vf.h"
 #include "ref.h"
+
+/* C18: every static-lifetime object of the provider unit (list generated from the goto symbol
+ * table on every run, vf/c18.py) keeps its value across a sign/verify call */
+#ifdef PROP_C18
+#include "c18o_gen.h"
+#define C18_BEGIN() do { c18_havoc(); c18_snapshot(); } while (0)
+#define C18_END() c18_check()
+#else
+#define C18_BEGIN() ((void)0)
+#define C18_END() ((void)0)
+#endif
 #include "openssl_stubs.h"
 
 json_t *vf_parse(unsigned call_no, const char *buf, size_t len, size_t flags) { return NULL; }
@@ -92,7 +103,9 @@ int main(void)
 		sig[i] = nondet_uchar();
 	live0 = vf_live;
 
+	C18_BEGIN();
 	r = jwt_openssl_ops.verify_sha_pem(&jwt, head, 5, sig, sig_len);
+	C18_END();
 	accepted = (r == 0 && jwt.error == 0);
 
 	if (accepted) {
@@ -164,7 +177,9 @@ int main(void)
 	w = (unsigned)((key.bits + 7) / 8);
 	vo_width = w;
 	live0 = vf_live;
+	C18_BEGIN();
 	r = jwt_openssl_ops.sign_sha_pem(&jwt, &out, &len, str, 5);
+	C18_END();
 	if (r == 0) {
 		unsigned same = 1;
 		unsigned rp = w - vo_dr_len, sp = w - vo_ds_len;
@@ -215,7 +230,9 @@ int main(void)
 		key.oct.key = okey;
 		key.oct.len = nondet_size_t();
 		__CPROVER_assume(key.oct.len <= 0x7fffffff);
+		C18_BEGIN();
 		r = jwt_openssl_ops.sign_sha_hmac(&jwt, &out, &len, str, 5);
+		C18_END();
 		if (r == 0) {
 			PROP(vo_hmac_calls == 1 && out != NULL, "C05: HMAC computed once");
 			PROP(vo_hmac_md_owned, "C18: HMAC() writes into a caller-owned buffer (md == NULL selects OpenSSL's static, non-thread-safe result buffer)");
@@ -231,7 +248,9 @@ int main(void)
 		return 0;
 	}
 	__CPROVER_assume(!is_es(jwt.alg));
+	C18_BEGIN();
 	r = jwt_openssl_ops.sign_sha_pem(&jwt, &out, &len, str, 5);
+	C18_END();
 	if (r == 0) {
 		unsigned same = 1;
 		PROP(jwt.error == 0 && vo_sign_calls == 1 && vo_pkey == (const EVP_PKEY *)&pkey_obj, "C05: signed once with the item's key object");
